@@ -2,6 +2,7 @@ package c07
 
 import (
 	"encoding/json"
+	"errors"
 	"fmt"
 	"os"
 	"os/exec"
@@ -146,6 +147,14 @@ func configs(thorough bool) []Config {
 		nonpos("iw(1);xir(1)|wtx", to, Script{iw(1), xir(1)}, Script{wtx()}) // indexed; x and t taken in opposite orders
 		nonpos("iinc(1)|iinc(1)", to, Script{iinc(1)}, Script{iinc(1)})
 	}
+	// (2e) a section that ends by an assertion failure while it holds shared variables: its run ends with that error,
+	// its writes leave no trace, and the other sharers can still commit afterwards (the locks are given back)
+	quickCombos = 2
+	add("fatal:inc(x)+assert|inc(x)", -1, false, Script{append(inc(x), assertFails)}, Script{inc(x)})
+	add("fatal:xfer(x,y)+assert|read2(y,x);inc(x)", -1, false, Script{append(xfer(x, y), assertFails)}, Script{read2(y, x), inc(x)})
+	add("fatal:iw(1)+assert|rt;iinc(1)", -1, false, Script{append(iw(1), assertFails)}, Script{rt(), iinc(1)})
+	add("fatal:inc(x);inc(y)+assert|xfer(y,x)", -1, false, Script{inc(x), append(inc(y), assertFails)}, Script{xfer(y, x)})
+	quickCombos = 0
 	// (2c) sharers wrapped in resources.MakePersistent (in-memory badger): commits go through Persistent.Commit's goroutine
 	persist := func(name string, ctxs ...Script) {
 		n := len(out)
@@ -315,7 +324,7 @@ func usedVars(scripts []Script) map[int]bool {
 	for _, sc := range scripts {
 		for _, sec := range sc {
 			for _, o := range sec {
-				if o.K != "A" {
+				if o.K != "A" && o.K != "F" {
 					used[o.V] = true
 				}
 			}
@@ -404,8 +413,18 @@ func execute(t *testing.T, cfg Config, c bubble.Chooser, strict bool) execOut {
 				res.detail = stk
 			}
 		}
-		for _, st := range w.st {
-			if res.fail == nil && deadlock == "" && !res.capped && (!st.runDone || st.runErr != nil) {
+		for i, st := range w.st {
+			if res.fail != nil || deadlock != "" || res.capped {
+				continue
+			}
+			if fatalAt(cfg.Ctxs[i]) >= 0 {
+				// this context's script ends by an assertion failure: its Run must report exactly that
+				if !st.runDone || !errors.Is(st.runErr, distsys.ErrAssertionFailed) {
+					res.fail = &Failure{"run-error", fmt.Sprintf("context %s: Run returned %v (done=%v), expected the assertion failure of its script", st.name, st.runErr, st.runDone)}
+				}
+				continue
+			}
+			if !st.runDone || st.runErr != nil {
 				res.fail = &Failure{"run-error", fmt.Sprintf("context %s: Run returned %v (done=%v)", st.name, st.runErr, st.runDone)}
 			}
 		}
@@ -466,7 +485,11 @@ func execute(t *testing.T, cfg Config, c bubble.Chooser, strict bool) execOut {
 	}
 	for i, sc := range cfg.Ctxs {
 		name := fmt.Sprintf("A%d", i)
-		if committed[name] != len(sc) {
+		want := len(sc)
+		if f := fatalAt(sc); f >= 0 {
+			want = f // the sections before the failing one; the failing one must leave no trace
+		}
+		if committed[name] != want {
 			res.fail = &Failure{"section-count", fmt.Sprintf("context %s committed %d sections, its script has %d", name, committed[name], len(sc))}
 			res.detail = renderEvents(evs)
 			return res
